@@ -149,3 +149,64 @@ func stripForCBE(evs []rec.Ev) []rec.Ev {
 	}
 	return out
 }
+
+// Item is one element of a stream in chunking-independent form: either a
+// plain event or a whole array with its payload.
+type Item struct {
+	Ev  rec.Ev
+	Arr *Array
+}
+
+// SplitArrays converts a stream into chunking-independent items.
+func SplitArrays(evs []rec.Ev) []Item {
+	var out []Item
+	for i := 0; i < len(evs); i++ {
+		e := evs[i]
+		switch e.K {
+		case rec.KArray, rec.KStringlikeArray:
+			out = append(out, Item{Arr: &Array{Kind: rec.KArrayBegin, AT: e.AT, Payload: e.S, Elems: elemCount(e.AT, e.U, e.S, e.K == rec.KStringlikeArray)}})
+		case rec.KMedia:
+			out = append(out, Item{Arr: &Array{Kind: rec.KMediaBegin, Media: e.MT, Payload: e.S, Elems: uint64(len(e.S))}})
+		case rec.KCustomBinary:
+			out = append(out, Item{Arr: &Array{Kind: rec.KCustomBegin, AT: events.ArrayTypeCustomBinary, Custom: e.U, Payload: e.S, Elems: uint64(len(e.S))}})
+		case rec.KCustomText:
+			out = append(out, Item{Arr: &Array{Kind: rec.KCustomBegin, AT: events.ArrayTypeCustomText, Custom: e.U, Payload: e.S, Elems: uint64(len(e.S))}})
+		case rec.KArrayBegin, rec.KMediaBegin, rec.KCustomBegin:
+			a := &Array{Kind: e.K, AT: e.AT, Custom: e.U, Media: e.MT}
+			j := i + 1
+			done := false
+			for j < len(evs) && !done {
+				switch evs[j].K {
+				case rec.KArrayChunk:
+					a.Elems += evs[j].U
+					final := !evs[j].B
+					j++
+					for j < len(evs) && evs[j].K == rec.KArrayData {
+						a.Payload = append(a.Payload, evs[j].S...)
+						j++
+					}
+					if final {
+						done = true
+					}
+				default:
+					done = true
+				}
+			}
+			if a.Payload == nil {
+				a.Payload = []byte{}
+			}
+			out = append(out, Item{Arr: a})
+			i = j - 1
+		default:
+			out = append(out, Item{Ev: e})
+		}
+	}
+	return out
+}
+
+func elemCount(at events.ArrayType, n uint64, payload []byte, stringlike bool) uint64 {
+	if stringlike {
+		return uint64(len(payload))
+	}
+	return n
+}
